@@ -48,11 +48,34 @@ def count_topics(b, withq):
     return n
 
 
+def reaction(w, rnd, a):
+    """an API call the application makes from inside a callback (stage 3)"""
+    k = rnd.random()
+    if k < 0.35:
+        q = rnd.choice([0, 1, 2]); return lambda: w.publish(a, rnd.choice(TOPICS), "re-" + str(q), q)
+    if k < 0.55:
+        return lambda: w.subscribe(a, [("re/" + a, 1)])
+    if k < 0.7:
+        return lambda: w.unsubscribe(a, ["re/" + a])
+    if k < 0.9:
+        return lambda: w.disconnect(a)
+    # (A1: connect() is not called on a protocol whose transport is gone)
+    return lambda: w.t[a].phase == "open" and w.connect(a, keepalive=0, cleanStart=True)
+
+
 def walk(w, rnd, profile, steps, opts):
     a = "A"
     br = Broker()
     def do(line):
-        br.observe(line); return line
+        br.observe(line)
+        if opts.get("react"):
+            # now and then the application reacts to the outcome of the request just made, or to the next callback
+            for e in line["fx"]:
+                if e["k"] == "ret" and e["d"] in line["post"]["pending"] and rnd.random() < 0.45:
+                    w.on_deferred(e["d"], rnd.choice(["ok", "ok", "fail"]), reaction(w, rnd, a))
+            if rnd.random() < 0.12:
+                w.on_cb(a, rnd.choice(["onPublish", "onMqttConnectionMade", "onMqttConnectionMade", "onDisconnection"]), reaction(w, rnd, a))
+        return line
     do(w.build(a))
     if opts.get("wrap"):
         do(w.pokeid(rnd.randint(65528, 65535)))
@@ -172,7 +195,7 @@ def walk(w, rnd, profile, steps, opts):
             if not kinds:
                 continue
             pkts = []
-            for _ in range(1 if rnd.random() < 0.8 else 2):
+            for _ in range(1 if (rnd.random() < 0.8 or opts.get("react")) else 2):
                 k = rnd.choice(kinds)
                 src = {"PUBACK": "PUBLISH1", "PUBREC": "PUBLISH2", "PUBCOMP": "PUBREL", "SUBACK": "SUBSCRIBE", "UNSUBACK": "UNSUBSCRIBE"}[k]
                 lst = br.seen[src]
@@ -234,6 +257,8 @@ def main():
             opts.update(maxgen=4, clean=0.0, wrap=True, wt={"lost": 1.6, "publish": 8, "set": 2.0, "ack": 4, "fire": 1.0, "disconnect": 0.1}, ka=[0])
         elif fam == "inbound":    # inbound QoS 0/1/2 traffic with repeats, losses and reconnects in the middle of exchanges
             opts.update(maxgen=5, clean=rnd.choice([0.0, 0.0, 0.5]), wt={"lost": 1.6, "publish": 0.5, "subscribe": 0.5, "unsubscribe": 0.2, "inbound": 9, "ack": 1, "fire": 0.5}, ka=[0])
+        elif fam == "react":      # stage 3: the application calls back into the API from Deferred callbacks and handlers
+            opts.update(maxgen=4, react=True, wt={"lost": 1.2, "publish": 5, "subscribe": 2.5, "unsubscribe": 1.5, "ack": 8, "inbound": 4, "fire": 1.5, "set": 0.8}, ka=[0, 0, 2, 5])
         elif fam == "subs":
             opts.update(maxgen=4, wt={"subscribe": 6, "unsubscribe": 5, "publish": 1, "lost": 1.2, "set": 2}, ka=[0])
         try:
